@@ -851,7 +851,7 @@ def check_casesrc(facts):
                     continue
                 if src[0] == "param" and any(isinstance(p, dict) and p.get("as") == "CharSet" for p in proj):
                     continue
-                if src[0] == "call" and src[1].startswith("std::vec::Vec::<T>::new") and fn in CASESRC_BUILDERS:
+                if src[0] == "call" and src[1].startswith("std::vec::Vec::<T>::new") and facts.owner_of(fn) in CASESRC_BUILDERS:
                     continue
                 bad.append(src)
             if bad:
